@@ -60,6 +60,10 @@ DRESS = ['api', 'compiled', 'goal-in-variable']
 # of the caller created once, when the engine is new, and HELD for the whole history (a caller
 # keeps its `p = yp.atom('p')` around; after clear() the engine no longer knows these objects)
 HELD = 'api-held-atoms'
+# a 6th dress-up, also for the histories that contain clear: the engine is an instance of the application's own
+# SUBCLASS of YP whose constructor preloads a fact and registers a function - clear() empties it like any engine
+SUBCLASS = 'api-subclassed-engine'
+BOOT_FACT = F('q', A('boot'), A('boot'))
 CLEAR = None
 
 
@@ -249,9 +253,22 @@ def readback_ref(ref):
     return tuple(res)
 
 
+class SubEngine(impl.YP):
+    def __init__(self, preload=True):
+        super().__init__()
+        self.preloaded = preload
+        if preload:
+            self.assert_fact(self.atom('q'), [self.atom('boot'), self.atom('boot')])
+            self.register_function('helper', lambda arg1: iter([False]))
+
+
 def run_history(dress, init, hist, pytext):
     """-> ('ok', states, steps, changed) | ('violation', sig, detail)"""
-    yp = impl.YP()
+    yp = SubEngine() if dress == SUBCLASS else impl.YP()
+    if dress == SUBCLASS:
+        dress = 'api'
+        init = [BOOT_FACT] + list(init)
+        ref0 = True
     if dress == HELD:
         yp = HeldAtoms(yp)
         for nm in ATOM_NAMES:
@@ -260,7 +277,8 @@ def run_history(dress, init, hist, pytext):
         yp.load_script_from_string(pytext, fn=impl.SCRIPT_FN)
     ref = Ref()
     for t in init:
-        yp.assert_fact(yp.atom(t[1]), [impl.to_engine(yp, x, {}) for x in t[2]])
+        if not (t is BOOT_FACT):
+            yp.assert_fact(yp.atom(t[1]), [impl.to_engine(yp, x, {}) for x in t[2]])
         ref.assert_fact(t)
     states = []
     steps = 0
@@ -454,7 +472,7 @@ def plan(tier):
         specs = [('full', 4, DRESS), ('core', 5, DRESS), ('core8', 6, ['api']), ('qfocus', 5, DRESS), ('all', 3, DRESS), ('reserved', 5, DRESS), ('opnamed', 5, DRESS)]
     for alpha, depth, dresses in specs:
         if alpha in ('full', 'core'):
-            dresses = list(dresses) + [HELD]
+            dresses = list(dresses) + [HELD, SUBCLASS]
         if alpha == 'full':
             dresses = list(dresses) + [DEFERRED]
         for dress in dresses:
@@ -495,7 +513,7 @@ def run_shard(spec):
     _keys['now'] = KEYS_RESERVED if alpha == 'reserved' else KEYS_OPNAMED if alpha == 'opnamed' else KEYS
     acc = Acc()
     pytext = None
-    if dress not in ('api', HELD, DEFERRED):
+    if dress not in ('api', HELD, DEFERRED, SUBCLASS):
         try:
             pytext = compile_cached(show_program(script_for(dress)))
         except Exception as e:  # noqa: BLE001
@@ -507,7 +525,7 @@ def run_shard(spec):
     for idx, hist in enumerate(itertools.product(al, repeat=depth)):
         if idx % n != k:
             continue
-        if dress == HELD and CLEAR_INDEX not in hist[:-1]:
+        if dress in (HELD, SUBCLASS) and CLEAR_INDEX not in hist[:-1]:
             continue
         acc.n['evaluations'] += 1
         acc.n['validated'] += 1
@@ -544,7 +562,7 @@ def replay(case):
         return [] if n == (0 if env is None else 1) else [('match:query-differs-from-unification', 'fact m(%s), query m(%s): %d answers' % (pp(t1), pp(t2), n))]
     _keys['now'] = KEYS_RESERVED if case.get('alpha') == 'reserved' else KEYS_OPNAMED if case.get('alpha') == 'opnamed' else KEYS
     dress = case['dress']
-    pytext = None if dress in ('api', HELD, DEFERRED) else impl.compile_text(show_program(script_for(dress)))
+    pytext = None if dress in ('api', HELD, DEFERRED, SUBCLASS) else impl.compile_text(show_program(script_for(dress)))
     r = run_history(dress, INITIAL[case['init']], case['hist'], pytext)
     if r[0] == 'violation':
         return [(r[1], r[2])]
